@@ -163,8 +163,8 @@ func check(c Case, noExclude bool) (outcome, error) {
 	}
 	if !noExclude {
 		switch {
-		case in.IndexAssign && in.BigContainer && pbt.KnownOpen(kInPlace):
-			o.skipped, o.finding = "index assignment in a program with large containers", kInPlace
+		case in.BigIndexAssign && pbt.KnownOpen(kInPlace):
+			o.skipped, o.finding = "index assignment to a large container", kInPlace
 		case in.BigAppends > 0 && pbt.KnownOpen(kSpareAppend):
 			o.skipped, o.finding = "append to a large array", kSpareAppend
 		case in.Ambiguous && pbt.KnownOpen(kParenText):
